@@ -7,5 +7,7 @@ MaxcSmall == {Lim({})} \cup {Lim({p}) : p \in Peers}
 \* every assignment of limits 1..2 with at most two peers allowed two connections
 MaxcPairs == {Lim(S) : S \in {T \in SUBSET Peers : Cardinality(T) <= 2}}
 MaxcOne   == {Lim({})}
+\* only the serving side (seeder, corrupter) may hold two connections
+MaxcServers == {Lim(S) : S \in SUBSET (Seeders \cup Corrupters)}
 MaxcAll   == [Peers -> {1, 2}]
 =============================================================================
